@@ -240,6 +240,7 @@ def check(pid, tier):
         model_ans = run.run_cases([model_bin], cases, op_timeout=60, jobs=12)
 
     nops = 0
+    n_skipped = 0
     hist = {}
     distinct = set()
     samples = []
@@ -250,8 +251,11 @@ def check(pid, tier):
         for oi, op in enumerate(case):
             if op.startswith("img "):
                 continue
-            nops += 1
             ia = impl_ans[ci][oi]
+            if ia == "skipped" or model_ans[ci][oi] == "skipped":
+                n_skipped += 1          # crash budget of the runner exhausted for this stream (vlib/run.py)
+                continue
+            nops += 1
             ma, spec = props.split_model(model_ans[ci][oi])
             fam = op.split(" ", 1)[0]
             k = fam + ":" + props.klass(ia)
@@ -275,6 +279,7 @@ def check(pid, tier):
         "generated": gen_stats, "generator_errors": gen_errors, "outcomes": hist, "disagreements": len(disagreements),
     }
     cov["evaluations"] = nops
+    cov["operations_skipped_after_crash_budget"] = n_skipped
     cov["distinct_nontrivial"] = len(distinct)
     cov["samples"] = samples
     cov["known_findings_printed"] = known_printed
